@@ -21,7 +21,7 @@ Proof. exact @handle_rejects_iff. Qed.
 Print Assumptions C12_handle_rejects_iff.
 
 Theorem C12_first_rejecting_hook_decides :
-  forall (U R : Type) mk i (hs1 : list (@hook U R)) h hs2 c r tr c1 r1 tr1 cx rx e,
+  forall (U R St : Type) (_ : St -> R -> R) mk i (hs1 : list (@hook U R)) h hs2 c r tr c1 r1 tr1 cx rx e,
     run_hooks mk i hs1 c r tr = (inr (c1, r1), tr1) -> h c1 r1 = (cx, rx, Some e) ->
     run_hooks mk i (hs1 ++ h :: hs2) c r tr = (inl e, tr1 ++ [mk (i + length hs1)%nat]).
 Proof. exact @run_hooks_app_reject. Qed.
